@@ -211,6 +211,13 @@ pub fn malformed_range(rng: &mut Rng) -> Vec<u8> {
 /// / replace / duplicate, the inserted material being grammar punctuation, digits, lone
 /// high bytes, or a whole multi-byte UTF-8 character (a `&str` API handed such a value must not
 /// slice inside one). Everything stays within what `HeaderValue::from_bytes` accepts.
+/// Words of the protocol family (codings, units, markers that proxies and caches add or strip):
+/// the dictionary for splicing mutations.
+pub const PROTOCOL_WORDS: [&[u8]; 16] = [
+    b"gzip", b"-gzip", b";gzip", b"--gzip", b"-br", b"-deflate", b"identity", b"bytes", b"W/", b"GMT", b";q=0", b"q=1",
+    b"none", b"*", b"-df", b":",
+];
+
 pub fn mutate_bytes(rng: &mut Rng, base: &[u8]) -> Vec<u8> {
     const PIECES: [&[u8]; 24] = [
         b",", b";", b"=", b".", b"-", b"/", b"\"", b"*", b" ", b"\t", b"q", b"W", b"0", b"1", b"9",
@@ -225,8 +232,12 @@ pub fn mutate_bytes(rng: &mut Rng, base: &[u8]) -> Vec<u8> {
             1 if pos < v.len() => {
                 v.remove(pos);
             }
-            2 | 3 => {
+            2 => {
                 let piece = rng.pick(&PIECES);
+                v.splice(pos..pos, piece.iter().copied());
+            }
+            3 => {
+                let piece = rng.pick(&PROTOCOL_WORDS);
                 v.splice(pos..pos, piece.iter().copied());
             }
             4 if pos < v.len() => {
